@@ -121,6 +121,13 @@ func CanDescend(v any) bool {
 // StructToMap converts a struct to a map using JSON tags for keys.
 // Nested structs are recursively converted to maps as well.
 func StructToMap(data any) map[string]any {
+	return structToMap(data, map[uintptr]bool{})
+}
+
+// structToMap is StructToMap with the set of pointers being converted further up:
+// a struct that is reached again through its own fields is left unconverted,
+// so that data linked in a cycle (parent pointers, rings) is converted in finite time.
+func structToMap(data any, converting map[uintptr]bool) map[string]any {
 	result := make(map[string]any)
 	if data == nil {
 		return result
@@ -132,6 +139,8 @@ func StructToMap(data any) map[string]any {
 		if rv.IsNil() {
 			return result
 		}
+		converting[rv.Pointer()] = true
+		defer delete(converting, rv.Pointer())
 		rv = rv.Elem()
 	}
 
@@ -162,7 +171,9 @@ func StructToMap(data any) map[string]any {
 
 		// Recursively convert nested structs
 		if fv.Kind() == reflect.Struct || (fv.Kind() == reflect.Ptr && fv.Type().Elem().Kind() == reflect.Struct) {
-			fieldValue = StructToMap(fieldValue)
+			if fv.Kind() != reflect.Ptr || !converting[fv.Pointer()] {
+				fieldValue = structToMap(fieldValue, converting)
+			}
 		}
 
 		result[tagName] = fieldValue
